@@ -151,7 +151,32 @@ def bounds(tier):
                                "cases": sum(len(b_cases(c, b, 0)) for c, b in B_CONFIGS)},
             "S_filtered": "every non-empty subset with 2 records per field is also read from a text that holds every structured "
                           "field of the class, with fields= naming the subset",
-            "tokens": "a, bb, x/y.z, e-acute (seed rotates representatives)", "sizes": "1, 22, 17 digits"}
+            "tokens": "a, bb, x/y.z, e-acute (seed rotates representatives)", "sizes": "1, 22, 17 digits",
+            "L_ladders": {
+                "what": "beyond 3 records / the class's own fields: generated from a description stored in the case, run through "
+                        "the executor and oracle of S (text-multi cases as input form 'str' of F: dump(fd) binary / text must "
+                        "write the text of dump())",
+                "fields": "every class configuration: its first structured field (pdiff index: SHA1-Current and SHA1-History)",
+                "records_per_field": {
+                    "n": "every n in 1..40 and %s" % (L_BIG + (L_BIG_THOROUGH if tier != "quick" else [])),
+                    "not_in_quick": L_BIG_THOROUGH if tier == "quick" else [],
+                    "records": "tokens rotate with the record index, sizes of 1-3 digits; n divisible by 3: the table neighbour "
+                               "present too (2 records)",
+                    "size_tokens": "n <= 40: one record with a size of %s digits, first / middle / last rotating with n, "
+                                   "assigned and parsed; larger n: a size of 17 digits first (even n) or 18 digits last (odd n)" % L_LONG_SIZES,
+                    "directions": "n <= 40: assign-list, text-multi, text-aligned, text-mixed; larger: assign-list (plain), "
+                                  "text-multi (long size)"},
+                "plain_fields_in_front": {"m": "every m in 1..40 and %s plain fields between Origin and the structured fields" % L_EXTRA_BIG,
+                                          "paragraphs": "2 records + neighbour field; 3 records with a 17-digit size in the middle",
+                                          "directions": ["assign-list", "text-multi"]},
+                "name_token_size": {
+                    "L": L_NAME_SIZES + (L_NAME_SIZES_THOROUGH if tier != "quick" else []),
+                    "not_in_quick": L_NAME_SIZES_THOROUGH if tier == "quick" else [],
+                    "token": "the name (pdiff index: the hash of SHA1-History... the last column; first column for two-column "
+                             "fields) is L characters of one letter, alone, or with one of %s inside" % sorted(L_TOKENS),
+                    "places": "offsets in the record's line of the dump: 40, L-4, and around every block size of %s inside: "
+                              "b-1, b, b+1, b-3 (L >= 65535: the last four of these)" % L_BLOCKS,
+                    "two-byte": "read from UTF-8 bytes / BytesIO, so that the character's two bytes lie on both sides of the boundary"}}}
 
 
 def assumptions():
@@ -184,7 +209,12 @@ def assumptions():
             "that already holds record lists - cls(other_paragraph), paragraph.copy() and cls({'Files': [records]}) raise "
             "AttributeError ('list' object has no attribute 'splitlines') for every class of this property on the unchanged "
             "library, because _multivalued.__init__ expects the raw string value of each structured field; the statement "
-            "says nothing about copying a paragraph, so this is reported to the maintainers of the check, not demanded"]
+            "says nothing about copying a paragraph, so this is reported to the maintainers of the check, not demanded",
+            "L (ladders): tokens stay non-empty and whitespace-free (a lone CR or a blank inside a token is outside the "
+            "statement); a ':' or '#' inside a long token is whitespace-free text; sizes of 15 / 16 / 17 / 18 digits bracket "
+            "the documented width 16: with apt-ftparchive a longer size is written unpadded, with dak / pdiff the column is "
+            "as wide as the longest size present anywhere in the field (first, middle or last record, record 1001 too); the "
+            "plain X-Extra-<i> fields are ordinary fields of the paragraph, their own round trip belongs to C02"]
 
 
 # ------------------------------------------------------------------------------------------------ symbols
@@ -295,10 +325,13 @@ def units(tier, seed):
     out.append({"family": "I", "cls": "Release", "beh": None})
     for cname, beh in B_CONFIGS:
         out.append({"family": "B", "cls": cname, "beh": beh})
+    out += l_units(tier)
     return out
 
 
 def unit_cost(u, tier):
+    if u["family"] == "L":
+        return {"records": 40, "extra": 10, "name-size": 1}[u["what"]] * (u["arg"] + 50)
     if u["family"] == "S":
         return sum(len(s) + 1 for s in u["subsets"]) * 8 * len(s_lists(tier)) // 3
     if u["family"] == "H":
@@ -328,6 +361,7 @@ def _exc(e):
 def make_text(case):
     """the text of a parsed-direction case (written by the harness, never by the code under test)"""
     lines = ["Origin: x\n"]
+    lines += ["X-Extra-%d: e%d\n" % (i, i) for i in range(case.get("extra", 0))]     # (ladders: more plain fields)
     d = case["dir"]
     for name, subs, recs in case["fields"]:
         single = d == "text-single" or (d == "text-natural" and len(subs) == 2)
@@ -774,6 +808,8 @@ def exec_case(case, stats=None):
         else:
             from debian.deb822 import Deb822Dict
             p = cls({"Origin": "x"})
+            for i in range(case.get("extra", 0)):
+                p["X-Extra-%d" % i] = "e%d" % i
             if set_beh == "before-the-fields":
                 p.size_field_behavior = beh
             for n, s, recs in fields:
@@ -1215,7 +1251,151 @@ def exec_iso(case, stats=None):
     return []
 
 
+# ------------------------------------------------------------------------------------------------ family L: ladders
+# Beyond the small scope: count ladders (records per field, plain fields in front of the structured ones) and size ladders
+# (size tokens of 15..18 digits, name tokens of 1 KiB .. 128 KiB).  A case stores the description of its record lists
+# ("gen"), never the records; it is expanded and run through the executor and oracle of S / F.
+L_SMALL = list(range(1, 41))
+L_BIG = [63, 64, 65, 100, 127, 128, 129, 255, 256, 257, 999, 1000, 1001, 1025]
+L_BIG_THOROUGH = [2500, 2501, 5000]
+L_EXTRA_BIG = [63, 64, 65, 100, 127, 128, 129, 255, 256, 257, 999, 1000, 1001]
+L_LONG_SIZES = [15, 16, 17, 18]
+L_NAME_SIZES = [997, 998, 999, 1000, 4095, 4096, 4097, 16383, 16384, 16385, 65535, 65536, 65537, 131071, 131072, 131073]
+L_NAME_SIZES_THOROUGH = [262143, 262144, 262145]
+L_BLOCKS = [4096, 16384, 65536, 131072, 262144]
+L_TOKENS = {"colon": "W:t", "two-byte": "é", "hash": "#"}
+L_WHERE = ("first", "middle", "last")
+
+
+def l_fields_of(cname):
+    """the structured fields a ladder is run on: the first of the class; for the pdiff index a two-column and a
+    three-column one"""
+    return [0, 1] if cname == "PdiffIndex" else [0]
+
+
+def l_expand(case):
+    """description -> [(field name, sub-field names, records)]"""
+    g, seed, cname = case["gen"], case["seed"], case["cls"]
+    toks, _sizes = symbols(seed)
+    table = TABLE[cname]
+    name, subs = table[g["field"]]
+    n = g["n"]
+    recs = []
+    for i in range(n):
+        rec = []
+        for j in range(len(subs)):
+            if j == 1:
+                rec.append(str((i * 7) % 997 + 1))
+            elif j == len(subs) - 1 and j != 0:
+                rec.append(toks[(i + j) % 4] + str(i))
+            else:
+                rec.append(toks[(i + j) % 4])
+        recs.append(rec)
+    if g.get("long_at"):
+        recs[{"first": 0, "middle": n // 2, "last": n - 1}[g["long_at"]]][1] = "1234567890123456789"[:g["long_len"]]
+    if g.get("name_len"):
+        # a token of L characters (the name; the hash where the record has no third column); "at" is an offset in the
+        # record's line of the dump (" hash size name")
+        L = g["name_len"]
+        rec = recs[{"first": 0, "middle": n // 2, "last": n - 1}[g["name_at"]]]
+        col = 0 if len(subs) == 2 else len(subs) - 1
+        body = toks[0][0] * L
+        if g.get("token"):
+            t = L_TOKENS[g["token"]]
+            q = g["at"] - (1 + sum(len(rec[j]) + 1 for j in range(col)))
+            assert 0 < q and q + len(t) < L, (g, q)
+            body = body[:q] + t + body[q + len(t):]
+        rec[col] = body
+    out = [(spell(name, seed), list(subs), recs)]
+    if g.get("neighbour"):
+        ofi = (g["field"] + 1) % len(table)
+        out.append((spell(table[ofi][0], seed), list(table[ofi][1]), rotating_records(len(table[ofi][1]), ofi, 2, seed)))
+    return out
+
+
+def l_family(case):
+    g = case["gen"]
+    return "ladder-" + g["ladder"] if g["ladder"] != "name-size" else "size-name-" + (g.get("token") or "filler")
+
+
+def exec_ladder(case, stats=None):
+    fam = l_family(case)
+    cfg = cfg_name(case["cls"], case["beh"])
+    bad = exec_case(dict(case, fields=l_expand(case), family="S"), stats)
+    if stats is not None:
+        stats["%s (all class configurations): %s" % (fam, "violating" if bad else "round-trips")] += 1
+    return [(b[0].replace("mv/%s/" % cfg, "mv/%s/%s/" % (cfg, fam), 1), _l_short(b[1]), _l_short(b[2])) for b in bad]
+
+
+def _l_short(x):
+    import re
+    t = x if isinstance(x, str) else repr(x)
+    t = re.sub(r"(.)\1{39,}", lambda m: "<%r x %d>" % (m.group(1), len(m.group(0))), t, flags=re.S)
+    return t if len(t) <= 1200 else t[:550] + " ...<%d characters>... " % (len(t) - 1100) + t[-550:]
+
+
+def l_cases(cname, beh, what, arg, tier, seed):
+    """the cases of one rung for one class configuration, simplest first"""
+    out = []
+
+    def add(gen, dirs, **kw):
+        for d in dirs:
+            c = {"family": "L", "cls": cname, "beh": beh, "dir": d, "gen": gen, "seed": seed}
+            if d == "text-multi":
+                c["form"] = "str"           # also: dump(fd) binary / text write the text of dump()
+            c.update(kw)
+            assert c.get("form") in (None, "str", "bytes", "BytesIO")
+            out.append(c)
+    both = ["assign-list", "text-multi"]
+    if what == "records":
+        n = arg
+        for fi in l_fields_of(cname):
+            add({"ladder": "records", "field": fi, "n": n, "neighbour": n % 3 == 0}, both + ["text-aligned", "text-mixed"] if n <= 40 else ["assign-list"])
+            if n <= 40:
+                # one record with a size of 15 / 16 / 17 / 18 digits: first, in the middle or last (rotating with n)
+                for ll in L_LONG_SIZES:
+                    w = L_WHERE[(n + ll) % 3] if n > 2 else L_WHERE[0] if n == 1 or ll % 2 else L_WHERE[2]
+                    add({"ladder": "records", "field": fi, "n": n, "long_at": w, "long_len": ll}, both)
+            else:
+                add({"ladder": "records", "field": fi, "n": n, "long_at": "last" if n % 2 else "first", "long_len": 17 + n % 2}, ["text-multi"])
+    elif what == "extra":
+        m = arg
+        add({"ladder": "plain-fields", "field": 0, "n": 2, "neighbour": True}, both, extra=m)
+        add({"ladder": "plain-fields", "field": l_fields_of(cname)[-1], "n": 3, "long_at": "middle", "long_len": 17}, both, extra=m)
+    else:
+        L = arg
+        fi = l_fields_of(cname)[-1]
+        places = [40, L - 4]
+        for b in L_BLOCKS:
+            places += [b - 1, b, b + 1, b - 3]
+        places = [q for i, q in enumerate(places) if 40 <= q <= L - 4 and q not in places[:i]]
+        add({"ladder": "name-size", "field": fi, "n": 1, "name_len": L, "name_at": "first"}, both)
+        add({"ladder": "name-size", "field": fi, "n": 3, "name_len": L, "name_at": "middle"}, ["text-multi"])
+        for tname in sorted(L_TOKENS):
+            for q in places if L < 65535 else places[-4:]:
+                gen = {"ladder": "name-size", "field": fi, "n": 2, "name_len": L, "name_at": "last", "token": tname, "at": q}
+                if tname == "two-byte":
+                    # read from bytes / a binary file: the character's two bytes lie on both sides of the boundary
+                    add(gen, ["text-multi"], form=FORMS[1] if q % 2 else FORMS[9])
+                else:
+                    add(gen, ["text-multi"] if q % 2 else ["assign-list"])
+    return out
+
+
+def l_units(tier):
+    out = []
+    for n in L_SMALL + L_BIG + (L_BIG_THOROUGH if tier != "quick" else []):
+        out.append({"family": "L", "cls": None, "beh": None, "what": "records", "arg": n})
+    for m in L_SMALL + L_EXTRA_BIG:
+        out.append({"family": "L", "cls": None, "beh": None, "what": "extra", "arg": m})
+    for L in L_NAME_SIZES + (L_NAME_SIZES_THOROUGH if tier != "quick" else []):
+        out.append({"family": "L", "cls": None, "beh": None, "what": "name-size", "arg": L})
+    return out
+
+
 def nontrivial(case):
+    if case["family"] == "L":
+        return True
     if case["family"] == "I":
         return True
     if case["family"] == "H":
@@ -1230,7 +1410,7 @@ def run_unit(u, tier, seed):
     import collections
     part = core.Part()
     cname, beh = u["cls"], u["beh"]
-    table = TABLE[cname]
+    table = TABLE.get(cname)
     stats = collections.Counter()
 
     def run(case):
@@ -1243,7 +1423,20 @@ def run_unit(u, tier, seed):
         for sig, exp, obs in bad:
             part.violation(sig, case, exp, obs)
 
-    if u["family"] == "I":
+    if u["family"] == "L":
+        case = None
+        for cname, beh in CONFIGS:
+            for case in l_cases(cname, beh, u["what"], u["arg"], tier, seed):
+                part.states += 1
+                part.transitions += 1
+                part.traces += 1
+                part.nontrivial += 1
+                for sig, exp, obs in exec_ladder(case, stats):
+                    part.violation(sig, case, exp, obs, rank=u["arg"])
+                part.extra["L %s ladder cases" % u["what"]] += 1
+        part.max_depth = max(part.max_depth, u["arg"])
+        part.sample(case)
+    elif u["family"] == "I":
         for c0, c1, b0, b1, order in i_plans():
             for d in ("assign-list", "text-multi"):
                 case = {"family": "I", "c0": c0, "c1": c1, "b0": b0, "b1": b1, "order": order, "dir": d,
@@ -1354,6 +1547,8 @@ def run_unit(u, tier, seed):
 
 
 def replay(case):
+    if case["family"] == "L":
+        return exec_ladder(case)
     if case["family"] == "I":
         return exec_iso(case)
     if case["family"] == "H":
@@ -1362,7 +1557,7 @@ def replay(case):
 
 
 def repro_py(case):
-    if case["family"] in ("H", "I") or case.get("form"):
+    if case["family"] in ("H", "I", "L") or case.get("form"):
         return "from mc.props import c12\ncase = %r\nbad = c12.replay(case)\nassert not bad, bad\n" % (case,)
     lines = ["from debian import deb822", "case = %r" % (case,)]
     if case["dir"].startswith("text-"):
